@@ -282,6 +282,9 @@ def r06_6(ctx):
 
 
 def run(ctx):
+    # the scanner runs on until terminate(): close() / join() neither flag nor wait for it (borrowed from C05)
+    from .c05 import r05_7 as _r05_7
+    _r05_7(ctx, 'R06.8')
     # the soft-limit signal goes to the recorded owner: recorded before anything user-supplied runs (borrowed from C03)
     from .c03 import r03_5 as _r03_5
     from ..report import Only as _Only6
